@@ -20,6 +20,10 @@
      ptr_ok       the head pointer names an HTML `head`, the form pointer an HTML `form`
      tmodes_ok    the stack of template insertion modes only holds InTemplate, InTable,
                   InColumnGroup, InTableBody, InRow, InBody
+     sync_ok      the sink view is the one determined by the operations emitted so far
+     trace_ok     every operation emitted so far was allowed by [op_okb] in the sink view of the moment
+                  it was emitted (handles handed out before use and numbered consecutively, element-only
+                  arguments are elements of the right kind, children go below containers, ...)
    ======================================================================== *)
 From Coq Require Import List NArith Bool Arith Lia String.
 From HV Require Import Dom.DomSpec Tree.TreeTypes Tree.TreeTables Tree.TreeModelHelpers Tree.TreeModelRules
@@ -44,9 +48,10 @@ Definition af_handles (l : list fentry) : list handle :=
 Definition opt_list {A} (o : option A) : list A := match o with Some x => [x] | None => [] end.
 
 (* every Handle-typed component of the tree-builder state (doc_handle = 0) *)
-Definition handles_of (s : st) : list handle :=
-  0 :: open_elems s ++ af_handles (active_formatting s) ++ opt_list (head_elem s) ++ opt_list (form_elem s)
+Definition state_handles (s : st) : list handle :=
+  open_elems s ++ af_handles (active_formatting s) ++ opt_list (head_elem s) ++ opt_list (form_elem s)
     ++ opt_list (context_elem s).
+Definition handles_of (s : st) : list handle := 0 :: state_handles s.
 
 (* mirror of TreeBuilder::trace_handles (mod.rs:269-292): the order of the calls *)
 Definition trace (s : st) : list handle :=
@@ -58,8 +63,9 @@ Definition sv_ok (s : st) : Prop :=
   forall h e, einfo_of s h = Some e ->
     e_tmpl e = ename_eqb (e_ns e, e_local e) (ns_html, nm "template").
 
-Definition known (s : st) (h : handle) : Prop := h < next_handle s.
-Definition known_ok (s : st) : Prop := Forall (known s) (handles_of s) /\ 1 <= next_handle s.
+(* [known s h]: h is an element the sink created (every handle the tree builder stores is one) *)
+Definition known (s : st) (h : handle) : Prop := exists e, einfo_of s h = Some e.
+Definition known_ok (s : st) : Prop := Forall (known s) (state_handles s) /\ 1 <= next_handle s.
 
 Definition early_mode (m : imode) : bool := match m with Initial | BeforeHtml => true | _ => false end.
 Definition root_ok (s : st) : Prop :=
@@ -101,6 +107,88 @@ Definition template_mode (m : imode) : bool :=
   match m with InTemplate | InTable | InColumnGroup | InTableBody | InRow | InBody => true | _ => false end.
 Definition tmodes_ok (s : st) : Prop := Forall (fun m => template_mode m = true) (template_modes s).
 
+(* ---------- the emitted operations ---------- *)
+(* operations without a handle argument: nothing to check, no effect on the sink view *)
+Definition significant (ev : event) : bool :=
+  match ev with
+  | EvArm _ _ => false
+  | EvOp op => match op with OpParseError | OpSetLine _ | OpSetQuirks _ | OpAppendDoctype _ _ _ => false | _ => true end
+  end.
+Definition sig (evs : list event) : list event := filter significant evs.
+
+(* the sink view after the events [evs] (newest first): mirrors sink_create_element / sink_create_comment /
+   sink_get_template_contents *)
+Definition ev_sv (ev : event) (v : sview) : sview :=
+  match ev with
+  | EvOp (OpCreateElement _ name _ tmpl ip _) =>
+    sv_push (Some {| e_ns := q_ns name ; e_local := q_local name ; e_ip := ip ; e_tmpl := tmpl |}) v
+  | EvOp (OpCreateComment _ _) | EvOp (OpCreatePi _ _ _) => sv_push None v
+  | EvOp (OpGetTemplateContents t r) =>
+    if Nat.eqb r (length (sv_elems v)) then {| sv_elems := sv_elems v ++ [None] ; sv_tmpl := (t, r) :: sv_tmpl v |} else v
+  | _ => v
+  end.
+Fixpoint tsv (evs : list event) : sview :=
+  match evs with [] => init_sv | ev :: r => ev_sv ev (tsv r) end.
+
+(* what a handle is, according to a sink view *)
+Definition v_info (v : sview) (h : handle) : option einfo := nth h (sv_elems v) None.
+Definition v_known (v : sview) (h : handle) : bool := Nat.ltb h (length (sv_elems v)).
+Definition v_elem (v : sview) (h : handle) : bool := match v_info v h with Some _ => true | None => false end.
+Definition v_named (v : sview) (h : handle) (names : list ename) : bool :=
+  match v_info v h with Some e => in_set names (e_ns e, e_local e) | None => false end.
+Definition v_contents (v : sview) (h : handle) : bool := existsb (fun p => Nat.eqb (snd p) h) (sv_tmpl v).
+(* the Document, an element, or the contents fragment of a template *)
+Definition v_container (v : sview) (h : handle) : bool := Nat.eqb h 0 || v_elem v h || v_contents v h.
+(* an element or a comment: a known handle that is none of the documents / fragments *)
+Definition v_created (v : sview) (h : handle) : bool :=
+  v_known v h && negb (Nat.eqb h 0) && negb (v_contents v h).
+Definition v_child (v : sview) (c : child) : bool := match c with inl h => v_created v h | inr _ => true end.
+
+Definition template_name : list ename := [(ns_html, nm "template")].
+Definition script_name : list ename := [(ns_html, nm "script")].
+Definition form_name_l : list ename := [(ns_html, nm "form")].
+Definition option_name : list ename := [(ns_html, nm "option")].
+Definition annotation_xml_name : list ename := [(ns_mathml, nm "annotation-xml")].
+
+(* the clauses of the TreeSink contract (SinkSpec.Contract.check_op) that need no knowledge of the tree:
+   evaluated in the sink view [v] of the moment the operation is emitted *)
+Definition op_okb (v : sview) (op : sinkop) : bool :=
+  match op with
+  | OpCreateElement h name _ tmpl ip _ =>
+    Nat.eqb h (length (sv_elems v)) &&
+    Bool.eqb tmpl (in_set template_name (q_ns name, q_local name)) &&
+    implb ip (in_set annotation_xml_name (q_ns name, q_local name))
+  | OpCreateComment h _ | OpCreatePi h _ _ => Nat.eqb h (length (sv_elems v))
+  | OpAppend p c => v_container v p && v_child v c
+  | OpAppendBeforeSibling sb c => v_known v sb && v_child v c
+  | OpAppendBasedOnParent e p c => v_elem v e && v_elem v p && v_child v c
+  | OpAddAttrsIfMissing t _ => v_elem v t
+  | OpRemoveFromParent t => v_known v t
+  | OpReparentChildren a b => v_elem v a && v_elem v b
+  | OpGetTemplateContents t r =>
+    v_named v t template_name &&
+    match find (fun p => Nat.eqb (fst p) t) (sv_tmpl v) with
+    | Some p => Nat.eqb r (snd p)
+    | None => Nat.eqb r (length (sv_elems v))
+    end
+  | OpMarkScriptStarted h => v_named v h script_name
+  | OpPop h | OpElemName h | OpIsMathmlIp h => v_elem v h
+  | OpAssociateForm t f e pe =>
+    v_named v t form_associatable && v_named v f form_name_l && v_elem v e &&
+    match pe with Some x => v_elem v x | None => true end
+  | OpCloneOption o => v_named v o option_name
+  | OpAppendDoctype _ _ _ | OpSetQuirks _ | OpSetLine _ | OpParseError => true
+  end.
+Definition ev_okb (v : sview) (ev : event) : bool :=
+  match ev with EvOp op => op_okb v op | EvArm _ _ => true end.
+
+(* every event was allowed when it was emitted ([evs] newest first) *)
+Fixpoint trace_okb (evs : list event) : bool :=
+  match evs with [] => true | ev :: r => ev_okb (tsv r) ev && trace_okb r end.
+
+Definition sync_ok (s : st) : Prop := tsv (sig (out s)) = sv s.
+Definition trace_ok (s : st) : Prop := trace_okb (sig (out s)) = true.
+
 Record TInv (s : st) : Prop := {
   inv_sv : sv_ok s ;
   inv_known : known_ok s ;
@@ -112,7 +200,9 @@ Record TInv (s : st) : Prop := {
   inv_head : head_ok s ;
   inv_headstack : headstack_ok s ;
   inv_ptr : ptr_ok s ;
-  inv_tmodes : tmodes_ok s
+  inv_tmodes : tmodes_ok s ;
+  inv_sync : sync_ok s ;
+  inv_trace : trace_ok s
 }.
 
 (* the part of the state the invariant talks about; everything else (opts, quirks,
@@ -121,31 +211,31 @@ Definition core_eq (s s' : st) : Prop :=
   mode s' = mode s /\ orig_mode s' = orig_mode s /\ template_modes s' = template_modes s /\
   pending_table_text s' = pending_table_text s /\ open_elems s' = open_elems s /\
   active_formatting s' = active_formatting s /\ head_elem s' = head_elem s /\ form_elem s' = form_elem s /\
-  context_elem s' = context_elem s /\ sv s' = sv s.
+  context_elem s' = context_elem s /\ sv s' = sv s /\ sig (out s') = sig (out s).
 
 Lemma core_eq_refl s : core_eq s s.
 Proof. repeat split. Qed.
 
 Lemma core_eq_einfo s s' h : core_eq s s' -> einfo_of s' h = einfo_of s h.
-Proof. intros (_ & _ & _ & _ & _ & _ & _ & _ & _ & E). unfold einfo_of. rewrite E. reflexivity. Qed.
+Proof. intros (_ & _ & _ & _ & _ & _ & _ & _ & _ & E & _). unfold einfo_of. rewrite E. reflexivity. Qed.
 Lemma core_eq_ename s s' h : core_eq s s' -> ename_of s' h = ename_of s h.
 Proof. intro C. unfold ename_of. rewrite (core_eq_einfo _ _ _ C). reflexivity. Qed.
 Lemma core_eq_next s s' : core_eq s s' -> next_handle s' = next_handle s.
-Proof. intros (_ & _ & _ & _ & _ & _ & _ & _ & _ & E). unfold next_handle. rewrite E. reflexivity. Qed.
-Lemma core_eq_handles s s' : core_eq s s' -> handles_of s' = handles_of s.
-Proof. intros (_ & _ & _ & _ & E1 & E2 & E3 & E4 & E5 & _). unfold handles_of. rewrite E1, E2, E3, E4, E5. reflexivity. Qed.
+Proof. intros (_ & _ & _ & _ & _ & _ & _ & _ & _ & E & _). unfold next_handle. rewrite E. reflexivity. Qed.
+Lemma core_eq_handles s s' : core_eq s s' -> state_handles s' = state_handles s.
+Proof. intros (_ & _ & _ & _ & E1 & E2 & E3 & E4 & E5 & _). unfold state_handles. rewrite E1, E2, E3, E4, E5. reflexivity. Qed.
 
 Lemma TInv_core_eq s s' : core_eq s s' -> TInv s -> TInv s'.
 Proof.
-  intros C [I1 I2 I3 I4 I5 I6 I7 I8 I9 I10 I11].
+  intros C [I1 I2 I3 I4 I5 I6 I7 I8 I9 I10 I11 I12 I13].
   assert (EN : forall h, ename_of s' h = ename_of s h) by (intro; apply core_eq_ename; exact C).
   assert (EI : forall h, einfo_of s' h = einfo_of s h) by (intro; apply core_eq_einfo; exact C).
-  destruct C as (Em & Eo & Et & Ep & Est & Eaf & Eh & Ef & Ec & Esv).
+  destruct C as (Em & Eo & Et & Ep & Est & Eaf & Eh & Ef & Ec & Esv & Eout).
   assert (C : core_eq s s') by (repeat split; assumption).
   constructor.
   - intros h e H. rewrite EI in H. apply I1 in H. exact H.
   - destruct I2 as [A B]. split.
-    + rewrite (core_eq_handles _ _ C). unfold known. rewrite (core_eq_next _ _ C). exact A.
+    + rewrite (core_eq_handles _ _ C). eapply Forall_impl; [|exact A]. intros h [e He]. exists e. rewrite EI. exact He.
     + rewrite (core_eq_next _ _ C). exact B.
   - unfold root_ok in *. rewrite Em, Est. destruct (early_mode (mode s)); [exact I3|].
     destruct I3 as (r & rest & E & N). exists r, rest. split; [exact E|]. rewrite EN. exact N.
@@ -164,16 +254,107 @@ Proof.
     + intros h H. rewrite Eh in H. rewrite EN. apply A. exact H.
     + intros f H. rewrite Ef in H. rewrite EN. apply B. exact H.
   - unfold tmodes_ok in *. rewrite Et. exact I11.
+  - unfold sync_ok in *. rewrite Eout, Esv. exact I12.
+  - unfold trace_ok in *. rewrite Eout. exact I13.
 Qed.
 
 (* setters that do not touch the core *)
-Lemma core_eq_set_out v s : core_eq s (set_out v s). Proof. repeat split. Qed.
+Lemma core_eq_set_out v s : sig v = sig (out s) -> core_eq s (set_out v s). Proof. intro H. repeat split. exact H. Qed.
 Lemma core_eq_set_frameset_ok v s : core_eq s (set_frameset_ok v s). Proof. repeat split. Qed.
 Lemma core_eq_set_ignore_lf v s : core_eq s (set_ignore_lf v s). Proof. repeat split. Qed.
 Lemma core_eq_set_foster_parenting v s : core_eq s (set_foster_parenting v s). Proof. repeat split. Qed.
 Lemma core_eq_set_quirks_mode v s : core_eq s (set_quirks_mode v s). Proof. repeat split. Qed.
 Lemma core_eq_trans a b c : core_eq a b -> core_eq b c -> core_eq a c.
 Proof.
-  intros (A1 & A2 & A3 & A4 & A5 & A6 & A7 & A8 & A9 & A10) (B1 & B2 & B3 & B4 & B5 & B6 & B7 & B8 & B9 & B10).
+  intros (A1 & A2 & A3 & A4 & A5 & A6 & A7 & A8 & A9 & A10 & A11) (B1 & B2 & B3 & B4 & B5 & B6 & B7 & B8 & B9 & B10 & B11).
   repeat split; congruence.
 Qed.
+
+(* ---------- emitted events and the invariant ---------- *)
+Lemma sig_cons_sig ev l : significant ev = true -> sig (ev :: l) = ev :: sig l.
+Proof. intro H. unfold sig. simpl. rewrite H. reflexivity. Qed.
+Lemma sig_cons_insig ev l : significant ev = false -> sig (ev :: l) = sig l.
+Proof. intro H. unfold sig. simpl. rewrite H. reflexivity. Qed.
+
+(* the contents handles recorded by a checked trace are known handles *)
+Lemma tsv_tmpl_lt : forall evs, trace_okb evs = true ->
+  forall p, In p (sv_tmpl (tsv evs)) -> snd p < length (sv_elems (tsv evs)).
+Proof.
+  induction evs as [|ev r IH]; simpl; intros T p Hp; [contradiction|].
+  apply andb_true_iff in T. destruct T as [Te Tr]. specialize (IH Tr).
+  assert (Mono : forall v', sv_tmpl v' = sv_tmpl (tsv r) -> length (sv_elems (tsv r)) <= length (sv_elems v') ->
+                 In p (sv_tmpl v') -> snd p < length (sv_elems v')).
+  { intros v' E L H. rewrite E in H. specialize (IH p H). lia. }
+  destruct ev as [op|a b]; [|apply IH; exact Hp].
+  destruct op; simpl in Hp |- *; try (apply IH; exact Hp);
+    try (unfold sv_push in *; simpl in *; rewrite app_length; simpl; specialize (IH p Hp); lia).
+  destruct (Nat.eqb result (length (sv_elems (tsv r)))) eqn:E; [|apply IH; exact Hp].
+  simpl in *. rewrite app_length. simpl. destruct Hp as [<-|Hp]; [apply Nat.eqb_eq in E; simpl; lia | specialize (IH p Hp); lia].
+Qed.
+
+(* emitting an operation that passes the check and creates nothing *)
+Lemma TInv_emit s op :
+  TInv s -> significant (EvOp op) = true -> ev_sv (EvOp op) (sv s) = sv s -> op_okb (sv s) op = true ->
+  TInv (set_out (EvOp op :: out s) s).
+Proof.
+  intros [I1 I2 I3 I4 I5 I6 I7 I8 I9 I10 I11 I12 I13] Sg Esv Ok. constructor; try assumption.
+  - unfold sync_ok in *. cbn [out set_out sv]. rewrite (sig_cons_sig _ _ Sg). cbn [tsv]. rewrite I12. exact Esv.
+  - unfold trace_ok in *. cbn [out set_out]. rewrite (sig_cons_sig _ _ Sg). cbn [trace_okb ev_okb].
+    unfold sync_ok in I12. rewrite I12, Ok, I13. reflexivity.
+Qed.
+
+(* views of [einfo_of] / [known] through the sink view *)
+Lemma v_info_einfo s h : v_info (sv s) h = einfo_of s h. Proof. reflexivity. Qed.
+Lemma known_v_elem s h : known s h -> v_elem (sv s) h = true.
+Proof. intros [e H]. unfold v_elem. rewrite v_info_einfo, H. reflexivity. Qed.
+Lemma known_v_known s h : known s h -> v_known (sv s) h = true.
+Proof.
+  intros [e H]. unfold v_known. apply Nat.ltb_lt. unfold einfo_of in H.
+  destruct (Nat.lt_ge_cases h (length (sv_elems (sv s)))) as [L|L]; [exact L|].
+  rewrite nth_overflow in H by exact L. discriminate.
+Qed.
+Lemma known_lt s h : known s h -> h < next_handle s.
+Proof. intro K. apply known_v_known in K. apply Nat.ltb_lt in K. exact K. Qed.
+Lemma v_named_of s h n names : einfo_of s h = Some n -> in_set names (e_ns n, e_local n) = true -> v_named (sv s) h names = true.
+Proof. intros H N. unfold v_named. rewrite v_info_einfo, H. exact N. Qed.
+
+(* handle 0 is the Document in every sink view of a trace; contents handles are not elements *)
+Lemma tsv_head : forall evs, exists l, sv_elems (tsv evs) = None :: l.
+Proof.
+  induction evs as [|ev r [l IH]]; simpl; [exists []; reflexivity|].
+  destruct ev as [op|a b]; [|exists l; exact IH].
+  destruct op; simpl; try (exists l; exact IH); try (rewrite IH; eexists; simpl; reflexivity).
+  destruct (Nat.eqb _ _); simpl; [rewrite IH; eexists; simpl; reflexivity | exists l; exact IH].
+Qed.
+
+Lemma nth_app_keep {A} (l m : list A) d i : i < length l -> nth i (l ++ m) d = nth i l d.
+Proof. intro H. apply app_nth1. exact H. Qed.
+
+Lemma tsv_tmpl_none : forall evs, trace_okb evs = true ->
+  forall p, In p (sv_tmpl (tsv evs)) -> nth (snd p) (sv_elems (tsv evs)) None = None.
+Proof.
+  induction evs as [|ev r IH]; simpl; intros T p Hp; [contradiction|].
+  apply andb_true_iff in T. destruct T as [Te Tr]. specialize (IH Tr).
+  pose proof (tsv_tmpl_lt r Tr) as Lt.
+  destruct ev as [op|a b]; [|apply IH; exact Hp].
+  destruct op; simpl in Hp |- *; try (apply IH; exact Hp);
+    try (unfold sv_push in *; simpl in *; rewrite nth_app_keep; [apply IH; exact Hp | apply Lt; exact Hp]).
+  destruct (Nat.eqb result (length (sv_elems (tsv r)))) eqn:E; [|apply IH; exact Hp].
+  simpl in *. destruct Hp as [<-|Hp].
+  - apply Nat.eqb_eq in E. simpl. rewrite E. rewrite app_nth2; [|lia]. rewrite Nat.sub_diag. reflexivity.
+  - rewrite nth_app_keep; [apply IH; exact Hp | apply Lt; exact Hp].
+Qed.
+
+Lemma v_contents_false v h : v_contents v h = false -> forall q, In q (sv_tmpl v) -> snd q <> h.
+Proof.
+  unfold v_contents. intros H q Hin E.
+  assert (X : existsb (fun p => Nat.eqb (snd p) h) (sv_tmpl v) = true).
+  { apply existsb_exists. exists q. split; [exact Hin | apply Nat.eqb_eq; exact E]. }
+  rewrite X in H. discriminate.
+Qed.
+Lemma v_contents_true v h : v_contents v h = true -> exists q, In q (sv_tmpl v) /\ snd q = h.
+Proof.
+  unfold v_contents. intro H. apply existsb_exists in H. destruct H as (q & Hin & Hq). apply Nat.eqb_eq in Hq. eauto.
+Qed.
+Lemma v_contents_intro v h q : In q (sv_tmpl v) -> snd q = h -> v_contents v h = true.
+Proof. intros Hin E. unfold v_contents. apply existsb_exists. exists q. split; [exact Hin | apply Nat.eqb_eq; exact E]. Qed.
